@@ -43,6 +43,11 @@
 extern "C" {
 #endif
 
+#ifdef OISF_LIBHTP_VERIF
+/* Verification trace point, defined by the verification harness. */
+void htp_verif_trace(int id);
+#endif
+
 #if defined(__cplusplus) && !defined(__STDC_FORMAT_MACROS)
 /* C99 requires that inttypes.h only exposes PRI* macros
  * for C++ implementations if this is defined: */
